@@ -122,7 +122,7 @@ def eval_expr(e: ast.expr, env: dict[str, Any], oracle: Oracle | None = None) ->
         if f == "len" and len(e.args) == 1 and not e.keywords:
             try:
                 v = eval_expr(e.args[0], env, oracle)
-                if isinstance(v, (str, bytes, list, tuple, dict)):
+                if isinstance(v, (str, bytes, list, tuple, dict, set, frozenset)):
                     return len(v)
             except AnalysisError:
                 pass
